@@ -4,7 +4,8 @@
 (* (ACTION_CONSTRAINT EmitEdge) as JSON for the replay on the real code.      *)
 EXTENDS SimplexTree, Json
 
-CONSTANTS FlagDims,   \* dmax arguments of insert_edge_as_flag
+CONSTANTS AssignInf,  \* may assign_filtration give +infinity (C03 thorough)
+          FlagDims,   \* dmax arguments of insert_edge_as_flag
           Mode        \* "all" | "flag" : which actions are enabled
 
 KJ(F) == {[s |-> SortedSeq(s), f |-> F[s]] : s \in DOMAIN F}
@@ -49,14 +50,27 @@ NextAll ==
   \/ MakeNonDecreasing
   \/ \E d \in 0..MaxDim : Expansion(d)
 
+Pairs(n) == {e \in SUBSET (0..(n - 1)) : Cardinality(e) = 2}
+HighSimplices == {s \in Universe : Dim(s) >= 2}
 NextFlag ==
   \/ \E u, v \in V, f \in Vals, d \in FlagDims : InsertEdgeAsFlag(u, v, f, d)
+  \/ \E d \in 1..MaxDim, B \in SUBSET HighSimplices : ExpansionWithBlockers(d, B)   \* d = 0 is not judged: the code then expands without bound
+  \/ \E n \in 1..Cardinality(V) : \E D \in [Pairs(n) -> Vals], t \in Vals \cup {0, INF}, d \in 0..MaxDim,
+          form \in {"matrix", "points"} : RipsComplex(n, D, t, d, form)
+  \/ \E G \in Graphs : InsertGraph(G)
   \/ \E s \in Universe : RemoveMaximal(s)
   \/ MakeNonDecreasing
   \/ \E d \in 0..MaxDim : Expansion(d)
   \/ \E d \in 0..MaxDim : PruneAboveDimension(d)
 
-Next == IF Mode = "flag" THEN NextFlag ELSE NextAll
+(* C03: the actions that create / repair / cut filtrations *)
+NextFilt ==
+  \/ \E s \in Universe, f \in Vals : InsertSimplex(s, f)
+  \/ \E s \in Universe, f \in Vals \cup (IF AssignInf THEN {INF} ELSE {}) : AssignFiltration(s, f)
+  \/ MakeNonDecreasing
+  \/ \E f \in Vals \cup {INF} : PruneAboveFiltration(f)
+  \/ \E s \in Universe : RemoveMaximal(s)
+Next == IF Mode = "flag" THEN NextFlag ELSE IF Mode = "filt" THEN NextFilt ELSE NextAll
 Spec == Init /\ [][Next]_<<K, act>>
 
 View == K
@@ -64,11 +78,24 @@ EmitState == PrintT(<<"STATE", ToJson([id |-> KJ(K), obs |-> Obs(K)])>>)
 EmitEdge  == PrintT(<<"EDGE", ToJson([from |-> KJ(K), act |-> act', to |-> KJ(K')])>>)
 
 (* in-model theorems *)
+(* C04: whatever the order of the edge insertions, the complex is the clique complex of its graph, and after *)
+(* monotonisation every simplex carries the largest value among its vertices and edges                        *)
+InvFlagValues == (Mode = "flag" /\ \E d \in FlagDims : IsFlag(Dom, d)) =>
+                   LET H == MonotoneHull(K) IN \A s \in Dom : Dim(s) >= 2 => H[s] = FlagValue(H, s)
 InvClosed   == Closed(Dom)
 InvFiltSeq  == LET q == FiltSeq(K) IN
                  /\ Len(q) = Cardinality(Dom)
                  /\ \A i, j \in DOMAIN q : i < j => Before(K, q[i], q[j])
                  /\ MonotoneF(K) => \A i, j \in DOMAIN q : q[i] \subseteq q[j] => i <= j
+(* Before is a strict total order on the simplices of every filtered complex: the sorted sequence is unique, *)
+(* whatever sort (sequential, parallel, any schedule) produces it                                              *)
+InvBeforeTotal == /\ \A s \in Dom : ~Before(K, s, s)
+                  /\ \A s, t \in Dom : s # t => (Before(K, s, t) \/ Before(K, t, s)) /\ ~(Before(K, s, t) /\ Before(K, t, s))
+                  /\ \A s, t, u \in Dom : (Before(K, s, t) /\ Before(K, t, u)) => Before(K, s, u)
+(* pruning at f keeps exactly the sublevel complex, which is again a complex *)
+InvSublevel == MonotoneF(K) => \A f \in Vals : Closed({s \in Dom : K[s] <= f})
+(* the extended filtration is monotone: ascending lower star on the originals, descending upper star on the cones *)
+InvExtend == ExtendOK(K) => MonotoneF(ExtVals4(K))
 InvHull     == LET H == MonotoneHull(K) IN
                  /\ MonotoneF(H) /\ \A s \in Dom : H[s] >= K[s]
                  /\ MonotoneF(K) => H = K
